@@ -42,7 +42,7 @@ int main(int argc, char **argv) {
 			// Description of the document
 			Document doc_desc{
 				.line_cnt = 0,
-				.has_trailing_newline = doc.back() == '\n',
+				.has_trailing_newline = !doc.empty() && doc.back() == '\n',
 			};
 
 			// Make the the document end with a new line. This to make sure
